@@ -59,3 +59,116 @@ Theorem npt_roundtrip_refuted :
   exists h, range_unmarshal_with id_order (range_marshal h) = Ok (mkRange (RNpt 1000999999%Z None) None)
             /\ r_value h = RNpt 1001000000%Z None.
 Proof. exists f8_range. split; vm_compute; reflexivity. Qed.
+
+(* ================= round trips ================= *)
+(* characters of marshalled range values: digits, ':' '.' 'T' 'Z' *)
+Definition rchar (c : N) : bool := is_digit c || (c =? COL) || (c =? DOT) || (c =? 84) || (c =? 90).
+Definition rstr (l : list N) : bool := forallb rchar l.
+
+Lemma rstr_app a b : rstr (a ++ b) = rstr a && rstr b.
+Proof. apply forallb_app. Qed.
+Lemma rstr_nosep sep l : rstr l = true -> rchar sep = false -> nosep sep l = true.
+Proof.
+  intros H Hs. induction l as [|x t IH]; [reflexivity|]. cbn [rstr forallb nosep] in *.
+  apply andb_true_iff in H as [H1 H2]. fold (nosep sep t). rewrite (IH H2), andb_true_r.
+  apply negb_true_iff, N.eqb_neq. intros ->. congruence.
+Qed.
+Lemma digits_rstr l : all_digits l = true -> rstr l = true.
+Proof.
+  induction l as [|x t IH]; [reflexivity|]. cbn [all_digits forallb rstr]. intros H.
+  apply andb_true_iff in H as [H1 H2]. unfold rchar at 1. rewrite H1. cbn [orb]. now apply IH.
+Qed.
+
+Lemma start_end_marshal {A} (f : list N -> option A) (ms : A -> list N) st en :
+  (forall x, f (ms x) = Some x) -> (forall x, rstr (ms x) = true) -> (forall x, ms x <> []) ->
+  start_end f (ms st ++ [DASH] ++ opt_str ms en) = Some (st, en).
+Proof.
+  intros Hf Hr Hne. unfold start_end. cbn [app].
+  rewrite split_on_cons by (apply rstr_nosep; [apply Hr|reflexivity]).
+  destruct en as [e|]; cbn [opt_str].
+  - rewrite split_on_clean by (apply rstr_nosep; [apply Hr|reflexivity]).
+    rewrite Hf. specialize (Hne e). destruct (ms e) eqn:E; [congruence|]. rewrite <- E, Hf. reflexivity.
+  - cbn [split_on]. now rewrite Hf.
+Qed.
+
+Lemma value_plain_ok {A} (ms : A -> list N) st en :
+  (forall x, rstr (ms x) = true) -> plain_ok SEMI (ms st ++ [DASH] ++ opt_str ms en) = true.
+Proof.
+  intros Hr. unfold plain_ok. rewrite !nosep_app.
+  rewrite (rstr_nosep SEMI _ (Hr st) eq_refl). cbn [nosep forallb andb].
+  assert (Hen : nosep SEMI (opt_str ms en) = true) by (destruct en; [apply rstr_nosep; [apply Hr|reflexivity]|reflexivity]).
+  change (forallb (fun c => negb (c =? SEMI)) (opt_str ms en)) with (nosep SEMI (opt_str ms en)). rewrite Hen. cbn [andb negb N.eqb DASH SEMI Pos.eqb].
+  pose proof (Hr st) as H. destruct (ms st) as [|c t]; [reflexivity|]. cbn [app]. cbn [rstr forallb] in H.
+  apply andb_true_iff in H as [H _]. unfold rchar, is_digit, COL, DOT in H. unfold DQ. lia.
+Qed.
+
+(* ---- UTC ---- *)
+Definition wf_utc (t : utc) : bool :=
+  (u_year t <? 10000) && (1 <=? u_month t) && (u_month t <=? 12) && (1 <=? u_day t) && (u_day t <=? days_in (u_month t) (u_year t))
+  && (u_hour t <? 24) && (u_min t <? 60) && (u_sec t <? 60) && (u_nsec t =? 0).
+
+Lemma fmt_pad2 n : n < 100 -> fmt_pad 2 n = [48 + n / 10; 48 + n mod 10].
+Proof.
+  intros H.
+  assert (E : forallb (fun n => list_eqb (fmt_pad 2 n) [48 + n / 10; 48 + n mod 10]) (upto 100) = true) by (vm_compute; reflexivity).
+  apply list_eqb_spec. exact (forall_upto _ 100 E n H).
+Qed.
+Lemma fmt_pad4 n : n < 10000 -> fmt_pad 4 n = [48 + n / 1000; 48 + (n / 100) mod 10; 48 + (n / 10) mod 10; 48 + n mod 10].
+Proof.
+  intros H.
+  assert (E : forallb (fun n => list_eqb (fmt_pad 4 n) [48 + n / 1000; 48 + (n / 100) mod 10; 48 + (n / 10) mod 10; 48 + n mod 10]) (upto 10000) = true)
+    by (vm_compute; reflexivity).
+  apply list_eqb_spec. exact (forall_upto _ 10000 E n H).
+Qed.
+
+Lemma two_digits_pad n rest : n < 100 -> two_digits ([48 + n / 10; 48 + n mod 10] ++ rest) = Some (n, rest).
+Proof.
+  Local Ltac Zify.zify_post_hook ::= Z.div_mod_to_equations.
+  intros H. cbn [app two_digits]. unfold is_digit.
+  assert (H1 : n / 10 < 10) by (apply N.div_lt_upper_bound; lia).
+  pose proof (N.mod_upper_bound n 10).
+  replace ((48 <=? 48 + n / 10) && (48 + n / 10 <=? 57) && ((48 <=? 48 + n mod 10) && (48 + n mod 10 <=? 57))) with true by lia.
+  f_equal. f_equal. lia.
+Qed.
+
+Lemma utc_roundtrip t : wf_utc t = true -> utc_unmarshal (utc_marshal t) = Some t.
+Proof.
+  Local Ltac Zify.zify_post_hook ::= Z.div_mod_to_equations.
+  intros H. unfold wf_utc in H. rewrite !andb_true_iff in H. destruct H as [[[[[[[[Hy Hm1] Hm2] Hd1] Hd2] Hh] Hmi] Hs] Hn].
+  destruct t as [y mo d h mi s ns]. cbn [u_year u_month u_day u_hour u_min u_sec u_nsec] in *.
+  apply N.eqb_eq in Hn. subst ns.
+  assert (Hd3 : d < 100). { unfold days_in in Hd2. repeat match type of Hd2 with context [if ?b then _ else _] => destruct b end; lia. }
+  unfold utc_marshal. cbn [u_year u_month u_day u_hour u_min u_sec].
+  rewrite fmt_pad4 by lia. rewrite !fmt_pad2 by lia.
+  cbn [app]. unfold utc_unmarshal.
+  assert (Hdig : forall k, k < 10 -> is_digit (48 + k) = true) by (intros k Hk; unfold is_digit; lia).
+  assert (Q1 : y / 1000 < 10) by (apply N.div_lt_upper_bound; lia).
+  rewrite !Hdig by (try apply N.mod_upper_bound; lia). cbn [andb].
+  change (48 + mo / 10 :: 48 + mo mod 10 :: ?r) with ([48 + mo / 10; 48 + mo mod 10] ++ r).
+  rewrite two_digits_pad by lia.
+  change (48 + d / 10 :: 48 + d mod 10 :: ?r) with ([48 + d / 10; 48 + d mod 10] ++ r).
+  rewrite two_digits_pad by lia.
+  change (48 + h / 10 :: 48 + h mod 10 :: ?r) with ([48 + h / 10; 48 + h mod 10] ++ r).
+  rewrite two_digits_pad by lia.
+  change (48 + mi / 10 :: 48 + mi mod 10 :: ?r) with ([48 + mi / 10; 48 + mi mod 10] ++ r).
+  rewrite two_digits_pad by lia.
+  change (48 + s / 10 :: [48 + s mod 10; 90]) with ([48 + s / 10; 48 + s mod 10] ++ [90]).
+  rewrite two_digits_pad by lia.
+  assert (Ey : digits_val [48 + y / 1000; 48 + (y / 100) mod 10; 48 + (y / 10) mod 10; 48 + y mod 10] 0 = y).
+  { cbn [digits_val]. lia. }
+  rewrite Ey.
+  replace ((1 <=? mo) && (mo <=? 12) && (h <? 24) && (mi <? 60) && (s <? 60) && (1 <=? d) && (d <=? days_in mo y)) with true by lia.
+  reflexivity.
+Qed.
+
+Lemma utc_marshal_rstr t : rstr (utc_marshal t) = true.
+Proof.
+  unfold utc_marshal, fmt_pad. rewrite !rstr_app.
+  assert (Hp : forall w n, rstr (pad_left w (fmt_uint n)) = true).
+  { intros w n. apply digits_rstr. unfold pad_left. generalize (N.of_nat w) as ww. generalize (fmt_uint_digits n). generalize (fmt_uint n) as l.
+    induction w as [|w IH]; intros l Hl ww; cbn [pad_left_aux]; [exact Hl|].
+    destruct (nlen l <? ww); [|exact Hl]. apply IH. cbn [all_digits forallb]. now rewrite Hl. }
+  rewrite !Hp. reflexivity.
+Qed.
+Lemma utc_marshal_nonnil t : utc_marshal t <> [].
+Proof. unfold utc_marshal. intros E. apply (f_equal (@rev N)) in E. rewrite !rev_app_distr in E. cbn in E. discriminate. Qed.
